@@ -370,6 +370,20 @@ impl<'a> Explorer<'a> {
             while s.panic.is_none() && self.silent_exec(s, t) {
                 self.settle(s, t);
             }
+            // A future that has nothing left to do and nothing to release completes in the same poll: no scheduler
+            // can run another task between its last operation and its completion.
+            if s.panic.is_none() && self.is_async(t) && s.tasks[t].status == Status::Ready && s.tasks[t].cleanup == 0 && !s.tasks[t].cancelled {
+                let ts = &s.tasks[t];
+                let nothing_left = ts.pc as usize >= self.prog.tasks[t].ops.len() && ts.acq.is_none() && ts.held_m == 0 && ts.held_r.iter().all(|h| *h == 0) && ts.handles == 0 && ts.tx == 0 && ts.rx == 0 && ts.joining.is_none();
+                if nothing_left {
+                    s.tasks[t].status = Status::Finished;
+                    for j in 0..s.tasks.len() {
+                        if s.tasks[j].joining == Some(t as u8) {
+                            Self::wake(s, j);
+                        }
+                    }
+                }
+            }
         }
     }
 
@@ -419,7 +433,7 @@ impl<'a> Explorer<'a> {
                 Some(if s.tasks[*c].cancelled { 3 } else { 1 })
             }
             Op::Park if is_async => Some(SKIP),
-            Op::Abort(c) | Op::IsFinished(c) if ts.handles & bit(*c) == 0 || !self.is_async(*c) => Some(SKIP),
+            Op::Abort(c) | Op::IsFinished(c) | Op::JoinProbe(c) if ts.handles & bit(*c) == 0 || !self.is_async(*c) => Some(SKIP),
             Op::DropHandle(c) => Some(if ts.handles & bit(*c) == 0 {
                 SKIP
             } else {
@@ -1216,6 +1230,17 @@ impl<'a> Explorer<'a> {
                     self.done(&mut n, t, SKIP);
                 } else {
                     self.done(&mut n, t, (s.tasks[*c].status == Status::Finished) as i64);
+                }
+                one(n)
+            }
+            Op::JoinProbe(c) => {
+                if ts.handles & bit(*c) == 0 || !self.is_async(*c) {
+                    self.done(&mut n, t, SKIP);
+                } else if s.tasks[*c].status == Status::Finished {
+                    n.tasks[t].handles &= !bit(*c);
+                    self.done(&mut n, t, if s.tasks[*c].cancelled { 3 } else { 1 });
+                } else {
+                    self.done(&mut n, t, 5);
                 }
                 one(n)
             }
